@@ -1,5 +1,646 @@
-//! C06 - monitor not built yet.
+//! C06 - Closed, deleted, poisoned or read-only handles never write; cancel = crash.
+//!  silence  after every terminal transition (close, close_collection, delete_collection, poison by
+//!           cancellation, poison by a failed flush) and in both read-only modes, every mutating
+//!           API is called on a retained handle: typed rejection, never Active again, and the
+//!           recording store shows no effective mutation under the collection prefix;
+//!  queued   1-2 operations in flight or queued when close / close_collection / delete_collection
+//!           starts, under enumerated schedules: admitted operations are reflected (close) or
+//!           erased (delete), nothing writes after the transition returned;
+//!  cancel   every mutating API is polled exactly k times (k = 1, 2, ... until it completes) on
+//!           a gated store and then dropped: the handle is unchanged-and-Active or Poisoned, a
+//!           poisoned handle rejects everything and writes nothing, and reopening through the
+//!           database yields the old or the new state in full (C01 document oracle + C02 audit);
+//!           database-level APIs are cancelled the same way and a retry must complete.
+
+use anda_db::collection::Collection;
+use anda_db::error::CollectionState;
+use anda_db::schema::Fv;
+use futures::StreamExt;
+use object_store::ObjectStore;
+use std::sync::Arc;
+use v_db::audit::{AuditCtx, audit};
+use v_db::driver::{Driver, GenCfg, Op, Step, coll_prefix, gen_op};
+use v_db::{COLL, Cfg, FDoc, IndexSet, Model, Patch, apply_patch, gen_doc, open_coll};
+use vcore::manual::{DfsChooser, ManualExec, RandChooser, Stuck};
+use vcore::recstore::{Fault, RecStore};
+use vcore::run::block_on;
+use vcore::{Rng, Run, Stats, Value, json};
+
+async fn populate(rng: &mut Rng, st: &mut Stats, n_ops: usize, flush_at_end: bool) -> Option<(RecStore, Driver)> {
+    let mut cfg = Cfg::random(rng);
+    if !flush_at_end {
+        cfg.bucket = 64; // many small buckets: compaction and flush have real work
+    }
+    let store = RecStore::new();
+    store.set_record_reads(false);
+    let mut d = Driver::start(Arc::new(store.clone()), cfg, IndexSet::ALL).await.ok()?;
+    let _ = d.step(&Op::SaveExt("k0".into(), 1), st).await;
+    let g = GenCfg { contention: 30, allow_reopen: false, allow_index_change: false, allow_maintenance: false, rejects: false };
+    for i in 0..n_ops {
+        let op = if i < 3 { Op::Add(gen_doc(rng, 1000 + i as u64)) } else { gen_op(rng, &d.model, d.set, &g) };
+        if let Step::Wrong(sig, det) = d.step(&op, st).await {
+            st.violation(format!("C06/populate/{sig}"), json!({"detail": det}));
+            return None;
+        }
+    }
+    while d.model.docs.len() < 2 {
+        // the monitors need a live document to aim at
+        let doc = fresh_doc(rng, "pop");
+        let _ = d.step(&Op::Add(doc), st).await;
+    }
+    if flush_at_end {
+        let _ = d.step(&Op::Flush, st).await;
+    }
+    Some((store, d))
+}
+
+fn effective_under_prefix(store: &RecStore, mark: usize) -> Vec<String> {
+    store
+        .mutations_since(mark, Some(&coll_prefix()))
+        .iter()
+        .filter(|m| m.effective())
+        .map(|m| m.describe())
+        .collect()
+}
+
+async fn list_prefix(store: &RecStore) -> Vec<String> {
+    let p = object_store::path::Path::from(coll_prefix());
+    store.inner().list(Some(&p)).filter_map(|r| async move { r.ok().map(|m| m.location.to_string()) }).collect().await
+}
+
+fn fresh_doc(rng: &mut Rng, tag: &str) -> FDoc {
+    let mut d = gen_doc(rng, 1_000_000);
+    d.uname = format!("fresh-{tag}-{}", rng.below(1 << 40));
+    d.codes = vec![];
+    d.grp = format!("gf-{tag}");
+    d.slot = rng.below(1 << 40);
+    d
+}
+
+/// Calls every mutating API (and the read APIs) on `c`; returns (api, outcome) pairs.
+async fn hammer(c: &Collection, rng: &mut Rng, some_id: u64, try_reenable: bool) -> Vec<(&'static str, Result<(), String>)> {
+    let mut out: Vec<(&'static str, Result<(), String>)> = vec![];
+    let e = |r: Result<(), anda_db::error::DBError>| r.map_err(|e| format!("{e:?}"));
+    out.push(("add", e(c.add_from(&fresh_doc(rng, "h")).await.map(|_| ()))));
+    let mut p = Patch::new();
+    p.insert("age".into(), Fv::U64(41));
+    out.push(("update", e(c.update(some_id, p).await.map(|_| ()))));
+    out.push(("remove", e(c.remove(some_id).await.and_then(|r| r.map(|_| ()).ok_or_else(|| anda_db::error::DBError::Generic { name: "h".into(), source: "remove returned None".into() })))));
+    out.push(("flush", e(c.flush(anda_db::unix_ms()).await.map(|_| ()))));
+    out.push(("save_extension", e(c.save_extension("kx".into(), Fv::U64(5)).await)));
+    out.push(("remove_extension", e(c.remove_extension("k0").await.map(|_| ()))));
+    c.set_extension("ky".into(), Fv::U64(6));
+    out.push(("set_extension+flush", e(c.flush(anda_db::unix_ms()).await.map(|_| ()))));
+    out.push(("compact_btree_index", e(c.compact_btree_index(&["age"]).await)));
+    out.push(("compact_bm25_index", e(c.compact_bm25_index(&["body"]).await)));
+    out.push(("reconcile_storage", e(c.reconcile_storage().await.map(|_| ()))));
+    if try_reenable {
+        c.set_read_only(false);
+        out.push(("set_read_only(false)+add", e(c.add_from(&fresh_doc(rng, "r")).await.map(|_| ()))));
+    }
+    // reads may never write either (their results are irrelevant here)
+    let _ = c.get_as::<FDoc>(some_id).await;
+    let _ = c.query_all_ids(anda_db::query::Filter::Field(("age".into(), anda_db::query::RangeQuery::Ge(Fv::U64(0))))).await;
+    let _ = c.search_ids(anda_db::query::Query { search: Some(anda_db::query::Search { text: Some("apple".into()), ..Default::default() }), filter: None, limit: Some(5) }).await;
+    out
+}
+
+#[derive(Debug, Clone, Copy, PartialEq, Eq)]
+enum Transition {
+    Close,
+    CloseCollection,
+    Delete,
+    PoisonByCancel,
+    PoisonByFailedFlush,
+    CollReadOnly,
+    DbReadOnly,
+}
+
+const TRANSITIONS: [Transition; 7] = [
+    Transition::Close,
+    Transition::CloseCollection,
+    Transition::Delete,
+    Transition::PoisonByCancel,
+    Transition::PoisonByFailedFlush,
+    Transition::CollReadOnly,
+    Transition::DbReadOnly,
+];
+
+fn silence_case(case: u64, rng: &mut Rng, st: &mut Stats) {
+    let tr = TRANSITIONS[(case % 7) as usize];
+    block_on(async {
+        let (n_pop, fl) = (6 + rng.usize(10), rng.bool());
+        let Some((store, d)) = populate(rng, st, n_pop, fl).await else { return };
+        let c = d.coll.clone();
+        let some_id = d.model.docs.keys().next().copied().unwrap_or(1);
+        let ctx = |extra: Value| json!({"transition": format!("{tr:?}"), "case": case, "history": d.history, "extra": extra});
+        // perform the transition
+        match tr {
+            Transition::Close => {
+                if let Err(e) = c.close().await {
+                    st.violation("C06/silence/close_failed", ctx(json!(format!("{e:?}"))));
+                    return;
+                }
+            }
+            Transition::CloseCollection => {
+                if let Err(e) = d.db.close_collection(COLL).await {
+                    st.violation("C06/silence/close_collection_failed", ctx(json!(format!("{e:?}"))));
+                    return;
+                }
+            }
+            Transition::Delete => {
+                if let Err(e) = d.db.delete_collection(COLL).await {
+                    st.violation("C06/silence/delete_collection_failed", ctx(json!(format!("{e:?}"))));
+                    return;
+                }
+                let left = list_prefix(&store).await;
+                if !left.is_empty() {
+                    st.violation("C06/silence/objects_left_after_delete", ctx(json!(left)));
+                    return;
+                }
+            }
+            Transition::PoisonByCancel => {
+                store.set_gate(true);
+                let mut ex: ManualExec<'_, ()> = ManualExec::new();
+                let doc = fresh_doc(rng, "p");
+                let c2 = c.clone();
+                let t = ex.spawn(async move {
+                    let _ = c2.add_from(&doc).await;
+                });
+                let polls = 1 + rng.usize(2);
+                for _ in 0..polls {
+                    if ex.poll(t) {
+                        break;
+                    }
+                }
+                ex.cancel(t);
+                drop(ex);
+                store.set_gate(false);
+                if c.state() != CollectionState::Poisoned {
+                    // the add completed within the polls: nothing to test in this case
+                    st.count("silence_poison_by_cancel_not_reached");
+                    return;
+                }
+            }
+            Transition::PoisonByFailedFlush => {
+                // make sure the flush has something to write, then let one of its writes fail
+                let _ = c.add_from(&fresh_doc(rng, "ff")).await;
+                store.set_fault(Fault::FailAfter(store.attempts() + rng.below(3)));
+                let r = c.flush(anda_db::unix_ms()).await;
+                store.reset_faults();
+                if r.is_ok() || c.state() != CollectionState::Poisoned {
+                    st.count("silence_poison_by_failed_flush_not_reached");
+                    return;
+                }
+            }
+            Transition::CollReadOnly => c.set_read_only(true),
+            Transition::DbReadOnly => d.db.set_read_only(true),
+        }
+        let terminal = !matches!(tr, Transition::CollReadOnly | Transition::DbReadOnly);
+        let state_after = c.state();
+        let mark = store.mark();
+        // DbReadOnly: the collection-level switch must not re-enable a handle whose database is
+        // read-only; CollReadOnly: re-enabling is legitimate, so it is not attempted here
+        let try_reenable = terminal || tr == Transition::DbReadOnly;
+        let results = hammer(&c, rng, some_id, try_reenable).await;
+        st.eval();
+        st.count(&format!("silence:{tr:?}"));
+        for (api, r) in &results {
+            st.count("silence_calls_on_retired_or_readonly_handle");
+            if r.is_ok() {
+                st.violation(format!("C06/silence/{tr:?}/call_accepted/{api}"), ctx(json!({"state_after_transition": format!("{state_after:?}")})));
+                return;
+            }
+        }
+        if terminal && c.state() == CollectionState::Active {
+            st.violation(format!("C06/silence/{tr:?}/handle_active_again"), ctx(json!(null)));
+            return;
+        }
+        if terminal && c.state() != state_after && !(state_after == CollectionState::Closing) {
+            st.count("state_changed_between_terminal_states");
+        }
+        let wrote = effective_under_prefix(&store, mark);
+        if !wrote.is_empty() {
+            st.violation(format!("C06/silence/{tr:?}/wrote_after_transition"), ctx(json!({"mutations": wrote, "calls": results.iter().map(|(a, r)| format!("{a}: {}", if r.is_ok() { "ok" } else { "rejected" })).collect::<Vec<_>>()})));
+            return;
+        }
+        if tr == Transition::Delete {
+            let left = list_prefix(&store).await;
+            if !left.is_empty() {
+                st.violation("C06/silence/retained_handle_recreated_objects_after_delete", ctx(json!(left)));
+                return;
+            }
+        }
+        // close() on a retired handle: idempotent or rejected, never writing
+        let mark = store.mark();
+        let _ = c.close().await;
+        let wrote = effective_under_prefix(&store, mark);
+        if terminal && !wrote.is_empty() {
+            st.violation(format!("C06/silence/{tr:?}/close_wrote_after_transition"), ctx(json!(wrote)));
+            return;
+        }
+        if !terminal {
+            // a read-only handle becomes writable again through the legitimate switch
+            st.count("readonly_handles_checked");
+        }
+        st.distinct(vcore::fnv_str(&format!("{tr:?}{}", d.history.join(";"))));
+        st.sample(|| json!({"monitor": "silence", "transition": format!("{tr:?}"), "calls": results.iter().map(|(a, _)| *a).collect::<Vec<_>>()}));
+    });
+}
+
+// ---------------------------------------------------------------------------------------------
+// cancel = crash
+
+#[derive(Debug, Clone, Copy, PartialEq, Eq)]
+enum Api {
+    Add,
+    Update,
+    Remove,
+    Flush,
+    Close,
+    SaveExt,
+    RemoveExt,
+    CompactBtree,
+    CompactBm25,
+    Reconcile,
+    DbCloseCollection,
+    DbDeleteCollection,
+    DbOpen,
+}
+const APIS: [Api; 13] = [
+    Api::Add, Api::Update, Api::Remove, Api::Flush, Api::Close, Api::SaveExt, Api::RemoveExt, Api::CompactBtree, Api::CompactBm25,
+    Api::Reconcile, Api::DbCloseCollection, Api::DbDeleteCollection, Api::DbOpen,
+];
+
+fn cancel_case(case: u64, rng: &mut Rng, st: &mut Stats) {
+    let api = APIS[(case % APIS.len() as u64) as usize];
+    let wl = rng.fork();
+    block_on(async {
+        let mut k = 1usize;
+        loop {
+            // identical population for every k
+            let mut r = wl.clone();
+            let Some((store, d)) = populate(&mut r, st, 14 + (case % 5) as usize, false).await else { return };
+            let mut d = d;
+            if matches!(api, Api::CompactBtree | Api::CompactBm25) {
+                // several buckets per index so that the compaction really rewrites something
+                for i in 0..8u64 {
+                    let mut x = fresh_doc(&mut r, "cmp");
+                    x.tags = (0..4).map(|j| format!("long-distinct-tag-value-{i}-{j}")).collect();
+                    x.body = v_db::VOCAB.iter().cycle().skip(i as usize).take(9).copied().collect::<Vec<_>>().join(" ");
+                    if api == Api::CompactBm25 {
+                        x.body = (0..12).map(|j| format!("unique{i}word{j}")).collect::<Vec<_>>().join(" ");
+                    }
+                    let _ = d.step(&Op::Add(x), st).await;
+                }
+                if api == Api::CompactBm25 {
+                    // fragment the token buckets: most of the new terms disappear again
+                    let ids: Vec<u64> = d.model.docs.iter().filter(|(_, x)| x.body.starts_with("unique")).map(|(i, _)| *i).collect();
+                    for id in ids.iter().skip(1) {
+                        let _ = d.step(&Op::Remove(*id), st).await;
+                    }
+                }
+            }
+            if api == Api::DbOpen {
+                // reopening needs a closed collection first
+                let _ = d.db.close_collection(COLL).await;
+            }
+            let c = d.coll.clone();
+            let db = d.db.clone();
+            let before = d.model.clone();
+            let target = before.docs.keys().next().copied().unwrap_or(1);
+            let new_doc = fresh_doc(&mut r, "c");
+            let mut patch = Patch::new();
+            patch.insert("age".into(), Fv::U64(99));
+            patch.insert("uname".into(), Fv::Text(format!("cancelled-{case}")));
+            patch.insert("body".into(), Fv::Text("harbor jungle".into()));
+            let mut after = before.clone();
+            match api {
+                Api::Update => {
+                    if let Some(x) = before.docs.get(&target) {
+                        after.docs.insert(target, apply_patch(x, &patch).unwrap());
+                    }
+                }
+                Api::Remove => {
+                    after.docs.remove(&target);
+                }
+                _ => {}
+            }
+            // odd cases also stop AFTER each landed mutation: the drop then falls between a backend
+            // effect and the caller observing it
+            store.set_gate(true);
+            store.set_gate_after(case % 2 == 1);
+            let mark = store.mark();
+            let mut ex: ManualExec<'_, Result<(), String>> = ManualExec::new();
+            let (c2, db2, nd, p2) = (c.clone(), db.clone(), new_doc.clone(), patch.clone());
+            let t = ex.spawn(async move {
+                let e = |r: Result<(), anda_db::error::DBError>| r.map_err(|e| format!("{e:?}"));
+                match api {
+                    Api::Add => e(c2.add_from(&nd).await.map(|_| ())),
+                    Api::Update => e(c2.update(target, p2).await.map(|_| ())),
+                    Api::Remove => e(c2.remove(target).await.map(|_| ())),
+                    Api::Flush => e(c2.flush(anda_db::unix_ms()).await.map(|_| ())),
+                    Api::Close => e(c2.close().await),
+                    Api::SaveExt => e(c2.save_extension("kc".into(), Fv::U64(9)).await),
+                    Api::RemoveExt => e(c2.remove_extension("k0").await.map(|_| ())),
+                    Api::CompactBtree => e(c2.compact_btree_index(&["tags"]).await),
+                    Api::CompactBm25 => e(c2.compact_bm25_index(&["body"]).await),
+                    Api::Reconcile => e(c2.reconcile_storage().await.map(|_| ())),
+                    Api::DbCloseCollection => e(db2.close_collection(COLL).await),
+                    Api::DbDeleteCollection => e(db2.delete_collection(COLL).await),
+                    Api::DbOpen => e(open_coll(&db2, IndexSet::ALL).await.map(|_| ())),
+                }
+            });
+            let mut completed = false;
+            for _ in 0..k {
+                if ex.poll(t) {
+                    completed = true;
+                    break;
+                }
+            }
+            let result = ex.take_result(t);
+            ex.cancel(t);
+            drop(ex);
+            store.set_gate(false);
+            store.set_gate_after(false);
+            if completed {
+                st.max(&format!("max_polls_to_complete:{api:?}"), k as u64);
+                if let Some(Err(e)) = result {
+                    st.violation(format!("C06/cancel/{api:?}/uncancelled_call_failed"), json!({"error": e, "history": d.history}));
+                }
+                break;
+            }
+            st.eval();
+            st.count(&format!("cancelled:{api:?}"));
+            st.count("cancellation_points");
+            let landed = store.mutations_since(mark, None).iter().filter(|m| m.effective()).count();
+            let ctx = |extra: Value| json!({"api": format!("{api:?}"), "dropped_after_polls": k, "backend_mutations_before_drop": landed, "history": d.history, "extra": extra});
+            let state = c.state();
+            // ---- the old handle
+            match api {
+                Api::DbCloseCollection | Api::DbDeleteCollection | Api::DbOpen => {}
+                _ => {
+                    if state == CollectionState::Active {
+                        st.count("cancel_left_handle_active");
+                        // no partial effect: the live handle still equals the model and no
+                        // document / index object was touched
+                        if !audit(&c, &before, IndexSet::ALL, st, &AuditCtx { sig: &format!("C06/cancel/{api:?}/active_handle_changed"), ctx: &|| ctx(json!(null)) }).await {
+                            return;
+                        }
+                    } else {
+                        st.count(&format!("cancel_left_handle:{state:?}"));
+                        if state == CollectionState::Poisoned || state == CollectionState::Closing {
+                            let mark2 = store.mark();
+                            let res = hammer(&c, &mut r, target, true).await;
+                            if state == CollectionState::Poisoned {
+                                for (a, rr) in &res {
+                                    if rr.is_ok() {
+                                        st.violation(format!("C06/cancel/{api:?}/poisoned_handle_accepted/{a}"), ctx(json!(null)));
+                                        return;
+                                    }
+                                }
+                                let wrote = effective_under_prefix(&store, mark2);
+                                if !wrote.is_empty() {
+                                    st.violation(format!("C06/cancel/{api:?}/poisoned_handle_wrote"), ctx(json!(wrote)));
+                                    return;
+                                }
+                                if c.state() == CollectionState::Active {
+                                    st.violation(format!("C06/cancel/{api:?}/poisoned_handle_active_again"), ctx(json!(null)));
+                                    return;
+                                }
+                            }
+                        }
+                    }
+                }
+            }
+            // ---- reopen through the database: a retry / reopen must complete
+            if api == Api::DbDeleteCollection {
+                // a cancelled delete is finished by a retry; afterwards nothing remains
+                match db.delete_collection(COLL).await {
+                    Ok(()) => {
+                        let left = list_prefix(&store).await;
+                        if !left.is_empty() {
+                            st.violation("C06/cancel/DbDeleteCollection/objects_left_after_retry", ctx(json!(left)));
+                            return;
+                        }
+                        let mark3 = store.mark();
+                        let _ = hammer(&c, &mut r, target, true).await;
+                        let wrote = effective_under_prefix(&store, mark3);
+                        if !wrote.is_empty() || !list_prefix(&store).await.is_empty() {
+                            st.violation("C06/cancel/DbDeleteCollection/retained_handle_wrote_after_delete", ctx(json!(wrote)));
+                            return;
+                        }
+                        st.count("cancelled_delete_finished_by_retry");
+                    }
+                    Err(e) => {
+                        st.violation("C06/cancel/DbDeleteCollection/retry_failed", ctx(json!(format!("{e:?}"))));
+                        return;
+                    }
+                }
+            } else {
+                match open_coll(&db, IndexSet::ALL).await {
+                    Ok(nc) => {
+                        if !Arc::ptr_eq(&nc, &c) && c.state() == CollectionState::Active && nc.state() == CollectionState::Active {
+                            st.violation(format!("C06/cancel/{api:?}/two_active_handles_for_one_collection"), ctx(json!(null)));
+                            return;
+                        }
+                        // old state or new state, in full
+                        let applied = match api {
+                            Api::Add => nc.len() == before.docs.len() + 1,
+                            Api::Update => nc.get_as::<FDoc>(target).await.ok().as_ref() == after.docs.get(&target) && after != before,
+                            Api::Remove => !nc.contains(target) && before.docs.contains_key(&target),
+                            _ => false,
+                        };
+                        let mut m: Model = if applied { after.clone() } else { before.clone() };
+                        if api == Api::Add && applied {
+                            let known: std::collections::BTreeSet<u64> = before.docs.keys().copied().collect();
+                            if let Some(id) = nc.ids().into_iter().find(|i| !known.contains(i)) {
+                                let mut x = new_doc.clone();
+                                x._id = id;
+                                m.docs.insert(id, x);
+                            }
+                        }
+                        st.count(if applied { "cancelled_op_found_applied" } else { "cancelled_op_found_not_applied" });
+                        if !audit(&nc, &m, IndexSet::ALL, st, &AuditCtx { sig: &format!("C06/cancel/{api:?}/after_reopen"), ctx: &|| ctx(json!({"resolved_as_applied": applied})) }).await {
+                            return;
+                        }
+                        // and it accepts writes again
+                        if let Err(e) = nc.add_from(&fresh_doc(&mut r, "after")).await {
+                            st.violation(format!("C06/cancel/{api:?}/reopened_collection_rejects_writes"), ctx(json!(format!("{e:?}"))));
+                            return;
+                        }
+                        st.count("reopens_after_cancellation_audited");
+                    }
+                    Err(e) => {
+                        st.violation(format!("C06/cancel/{api:?}/reopen_failed"), ctx(json!(format!("{e:?}"))));
+                        return;
+                    }
+                }
+            }
+            st.distinct(vcore::fnv_str(&format!("{api:?}{k}")) ^ case);
+            k += 1;
+            if k > 400 {
+                st.inconclusive(format!("C06 cancel: {api:?} did not complete within 400 polls"));
+                break;
+            }
+        }
+        st.sample(|| json!({"monitor": "cancel", "api": format!("{api:?}"), "polls_until_completion": k}));
+    });
+}
+
+// ---------------------------------------------------------------------------------------------
+// operations in flight / queued when a transition starts
+
+fn queued_case(case: u64, rng: &mut Rng, st: &mut Stats, budget: u64) {
+    let tr = [Transition::Close, Transition::CloseCollection, Transition::Delete][(case % 3) as usize];
+    let n_ops = 1 + (case / 3 % 2) as usize;
+    let wl = rng.fork();
+    block_on(async {
+        let mut dfs = DfsChooser::new();
+        let mut rc = RandChooser(rng.fork());
+        let mut runs = 0u64;
+        loop {
+            let use_dfs = runs < budget;
+            if use_dfs {
+                dfs.begin_run();
+            }
+            let mut r = wl.clone();
+            let Some((store, d)) = populate(&mut r, st, 6, true).await else { return };
+            let c = d.coll.clone();
+            let db = d.db.clone();
+            let docs: Vec<FDoc> = (0..n_ops).map(|i| fresh_doc(&mut r, &format!("q{i}"))).collect();
+            store.set_gate(true);
+            let mut ex: ManualExec<'_, Result<Option<u64>, String>> = ManualExec::new();
+            for doc in &docs {
+                let (c2, doc) = (c.clone(), doc.clone());
+                ex.spawn(async move { c2.add_from(&doc).await.map(Some).map_err(|e| format!("{e:?}")) });
+            }
+            let (c2, db2) = (c.clone(), db.clone());
+            let tt = ex.spawn(async move {
+                let r = match tr {
+                    Transition::Close => c2.close().await,
+                    Transition::CloseCollection => db2.close_collection(COLL).await,
+                    _ => db2.delete_collection(COLL).await,
+                };
+                r.map(|_| None).map_err(|e| format!("{e:?}"))
+            });
+            let mut mark_after_transition: Option<usize> = None;
+            let store2 = store.clone();
+            let res = if use_dfs {
+                ex.run(&mut dfs, 4000, |_, i, done| {
+                    if done && i == tt {
+                        mark_after_transition = Some(store2.mark());
+                    }
+                })
+            } else {
+                ex.run(&mut rc, 4000, |_, i, done| {
+                    if done && i == tt {
+                        mark_after_transition = Some(store2.mark());
+                    }
+                })
+            };
+            store.set_gate(false);
+            let trace = ex.trace.clone();
+            if let Err(e) = res {
+                match e {
+                    Stuck::Deadlock(t) => st.violation(format!("C06/queued/{tr:?}/deadlock"), json!({"blocked": t, "schedule": trace})),
+                    Stuck::StepCap => st.inconclusive("C06 queued: step cap"),
+                }
+                return;
+            }
+            let results: Vec<Result<Option<u64>, String>> = (0..=n_ops).map(|i| ex.take_result(i).unwrap()).collect();
+            drop(ex);
+            runs += 1;
+            st.eval();
+            st.count("queued_schedules_run");
+            st.count(&format!("queued:{tr:?}"));
+            st.set("distinct_queued_schedules", vcore::hash_debug(&trace) ^ case.wrapping_mul(0x9e3779b97f4a7c15));
+            let ctx = |extra: Value| json!({"transition": format!("{tr:?}"), "schedule": trace, "results": results.iter().map(|r| format!("{r:?}")).collect::<Vec<_>>(), "extra": extra});
+            if let Err(e) = &results[n_ops] {
+                st.violation(format!("C06/queued/{tr:?}/transition_failed"), ctx(json!(e)));
+                return;
+            }
+            // nothing under the prefix changes once the transition has returned
+            if let Some(m) = mark_after_transition {
+                let wrote = effective_under_prefix(&store, m);
+                if !wrote.is_empty() {
+                    st.violation(format!("C06/queued/{tr:?}/wrote_after_transition_returned"), ctx(json!(wrote)));
+                    return;
+                }
+            }
+            let accepted = results[..n_ops].iter().filter(|r| r.is_ok()).count();
+            st.count(&format!("queued_ops_accepted:{accepted}"));
+            if tr == Transition::Delete {
+                let left = list_prefix(&store).await;
+                if !left.is_empty() {
+                    st.violation("C06/queued/Delete/objects_left", ctx(json!(left)));
+                    return;
+                }
+            } else {
+                // operations admitted before the transition are reflected, rejected ones left no trace
+                let mut m = d.model.clone();
+                for (i, r) in results[..n_ops].iter().enumerate() {
+                    if let Ok(Some(id)) = r {
+                        let mut x = docs[i].clone();
+                        x._id = *id;
+                        m.docs.insert(*id, x);
+                    }
+                }
+                match open_coll(&db, IndexSet::ALL).await {
+                    Ok(nc) => {
+                        if !audit(&nc, &m, IndexSet::ALL, st, &AuditCtx { sig: &format!("C06/queued/{tr:?}/after_reopen"), ctx: &|| ctx(json!(null)) }).await {
+                            return;
+                        }
+                    }
+                    Err(e) => {
+                        st.violation(format!("C06/queued/{tr:?}/reopen_failed"), ctx(json!(format!("{e:?}"))));
+                        return;
+                    }
+                }
+            }
+            if use_dfs && !dfs.next_run() {
+                st.count("queued_schedule_spaces_exhausted");
+                break;
+            }
+            if runs >= budget + budget / 2 {
+                break;
+            }
+        }
+        st.distinct(vcore::fnv_str(&format!("queued{tr:?}{n_ops}")) ^ case);
+    });
+}
+
 fn main() {
-    println!("INCONCLUSIVE property=C06 monitor not built yet");
-    std::process::exit(2);
+    let mut run = Run::from_args(
+        "C06",
+        "exploration",
+        "silence: one evaluation = one transition followed by every mutating API on the retained handle; cancel: one \
+         evaluation = one (API, number of polls before the drop) pair, enumerated for k = 1.. until the call completes; \
+         queued: one evaluation = one schedule of a transition against 1-2 in-flight operations. Distinct by (transition, \
+         history) / (API, k) / (transition, operation count)",
+    );
+    run.assume("close() itself is the transition: its final flush of already-acknowledged state is allowed; only calls after it returned (or queued behind it) must be silent");
+    run.assume("a collection-level read-only flag may be lifted again by set_read_only(false); only closed / deleted / poisoned handles can never be re-enabled");
+    run.assume("suspension points are the backend calls and lock waits of the async code: each poll of a gated call stops at exactly one of them");
+    let t = run.tier;
+    if run.wants("silence") {
+        run.parallel("silence", t.pick(420, 20000), 0.25, silence_case);
+    }
+    if run.wants("cancel") {
+        run.parallel("cancel", t.pick(78, 2600), 0.5, cancel_case);
+    }
+    if run.wants("queued") {
+        run.parallel("queued", t.pick(24, 600), 0.9, |c, rng, st| queued_case(c, rng, st, t.pick(60, 600)));
+    }
+    for tr in TRANSITIONS {
+        run.floor(&format!("silence:{tr:?}"), 10);
+    }
+    for a in APIS {
+        run.floor(&format!("cancelled:{a:?}"), 2);
+    }
+    run.floor("cancellation_points", 300);
+    run.floor("reopens_after_cancellation_audited", 200);
+    run.floor("queued_schedules_run", 300);
+    run.floor("silence_calls_on_retired_or_readonly_handle", 3000);
+    run.finish();
 }
